@@ -29,6 +29,7 @@ import (
 	"strconv"
 	"strings"
 
+	"keepverif/harness/c35/looprun"
 	"keepverif/harness/hx"
 
 	"crypto/elliptic"
@@ -172,6 +173,9 @@ func classify(err error) string {
 
 func exec(op string) (string, string) {
 	f := strings.Fields(op)
+	if len(f) > 0 && f[0] == "loop" {
+		return looprun.Exec(op)
+	}
 	if len(f) != 2 || f[0] != "hb" {
 		return "bad-op", "bad"
 	}
@@ -328,6 +332,10 @@ func genOutcome(r *hx.Rng, lowBias int) string {
 func gen(r *hx.Rng, n int, tier string) []string {
 	var ops []string
 	for i := 0; i < n; i++ {
+		if i%10 == 9 {
+			ops = append(ops, looprun.Gen(r))
+			continue
+		}
 		if r.Chance(1, 30) {
 			ops = append(ops, "hb "+hx.Pick(r, []string{"0/a", "8/u", "0/a70", "1/a5i0", "x", "0/a-1i2", "0/u,,1/u"}))
 			continue
@@ -362,11 +370,11 @@ func main() {
 		Gen:  gen,
 		Exec: exec,
 		Facts: func() []string {
-			return []string{
+			return append([]string{
 				fmt.Sprintf("nat minimumActiveMembers %d", tbtc.VerifC36MinimumActiveMembers),
 				fmt.Sprintf("nat consecutiveFailureThreshold %d", tbtc.VerifC36ConsecutiveFailureThreshold),
 				fmt.Sprintf("nat inactivityClaimValidityBlocks %d", tbtc.VerifC36InactivityClaimValidityBlock),
-			}
+			}, looprun.Facts()...)
 		},
 	})
 }
